@@ -21,6 +21,7 @@ fn main() {
     match model.as_str() {
         "graph" => graph(),
         "names" => names(),
+        "plug" => plug_model(),
         other => {
             eprintln!("unknown model {other}");
             std::process::exit(2);
@@ -66,6 +67,39 @@ fn names() {
         }
     }
     writeln!(out, "{}", json!({"summary": true, "lines": lines, "gets": gets, "pairs": pairs, "findings": findings})).unwrap();
+}
+
+/// C10: one REPLAY line per (socket, plug list) case of spec/Plug.tla
+fn plug_model() {
+    use wac_verif_harness::plugreplay::replay_case;
+    let data = arg("--data", "data");
+    let lib = Lib::load(&data, "plug").unwrap_or_else(|e| {
+        eprintln!("cannot load library: {e:#}");
+        std::process::exit(2)
+    });
+    let world = World::new(&lib).unwrap_or_else(|e| {
+        eprintln!("cannot build library world: {e:#}");
+        std::process::exit(2)
+    });
+    let stdin = std::io::stdin();
+    let out = std::io::stdout();
+    let mut out = out.lock();
+    let (mut lines, mut findings, mut oks) = (0usize, 0usize, 0usize);
+    for line in stdin.lock().lines() {
+        let line = line.unwrap();
+        if let Some(js) = tlc_line(&line, "REPLAY") {
+            let v: Value = serde_json::from_str(&js).unwrap();
+            lines += 1;
+            if v["allowed"].as_array().unwrap().iter().any(|x| x == "ok") {
+                oks += 1;
+            }
+            for f in replay_case(&lib, &world, &v) {
+                findings += 1;
+                writeln!(out, "{f}").unwrap();
+            }
+        }
+    }
+    writeln!(out, "{}", json!({"summary": true, "lines": lines, "findings": findings, "cases_allowing_ok": oks})).unwrap();
 }
 
 fn graph() {
